@@ -519,13 +519,14 @@ def case_aead_decrypt_session(m, layout, alg, adlen, mlen):
         st = R.obj(R.struct_size(prefix + "_state_t"))
         R.call(prefix + "_aead_init", st, N, K)
         nv = int.from_bytes(nonce, "big")
-        packets = [(adlen, mlen), (3, 5), (0, 0), (9, 21)]
+        packets = [(adlen, mlen), (3, 5), (2, 6), (0, 0), (9, 21)]
+        forged = 2          # this packet carries an independent tag: it must be rejected and must not disturb the session
         for k, (al, ml) in enumerate(packets):
             A = R.buf("A%d" % k, al)
             nk = ((nv + k) % (1 << 128)).to_bytes(16, "big")
             wc, wt = R.spec.aead_encrypt(alg, SB("K", klen), cbytes(nk), SB("A%d" % k, al), SB("M%d" % k, ml))
             cin = R.out(ml + 16)
-            R.mc.store(cin, tuple(wc) + tuple(wt))
+            R.mc.store(cin, tuple(wc) + (SB("F", 16) if k == forged else tuple(wt)))
             mo = R.out(ml)
             R.call(prefix + "_aead_start", st, A, al)
             pos = 0
@@ -533,7 +534,12 @@ def case_aead_decrypt_session(m, layout, alg, adlen, mlen):
                 R.call(prefix + "_aead_decrypt_block", st, Ptr(cin.obj, pos), Ptr(mo.obj, pos), c)
                 pos += c
             r = to_int(R.call(prefix + "_aead_decrypt_finalize", st, Ptr(cin.obj, ml)))
-            what = "packet %d of a session (packet lengths %s, initial nonce %s)" % (k + 1, [p[1] for p in packets], nonce.hex())
+            what = "packet %d of a session (packet lengths %s, packet %d forged, initial nonce %s)" % (
+                k + 1, [p[1] for p in packets], forged + 1, nonce.hex())
+            if k == forged:
+                if r != 0xffffffff:
+                    return ("session", "%s: the forged packet is not rejected with -1 (returned %s)" % (what, r))
+                continue
             if r != 0:
                 return ("session", "%s: the genuine ciphertext under nonce+%d is rejected (returned %s)" % (what, k, r))
             d = modes.first_diff(R.read(mo, ml), SB("M%d" % k, ml))
